@@ -107,7 +107,7 @@ theorem coverSamples_ok {sids : List Int} {tids : List (List Int)} :
 
 /-! ### the greedy phase terminates: every round covers a new id -/
 
-theorem length_filter_le_of_imp {α : Type} (p q : α → Bool) (l : List α) (hpq : ∀ a ∈ l, p a = true → q a = true) :
+theorem cover_length_filter_le_of_imp {α : Type} (p q : α → Bool) (l : List α) (hpq : ∀ a ∈ l, p a = true → q a = true) :
     (l.filter p).length ≤ (l.filter q).length := by
   induction l with
   | nil => simp
@@ -121,7 +121,7 @@ theorem length_filter_le_of_imp {α : Type} (p q : α → Bool) (l : List α) (h
       · simp; omega
     · rw [ha hp]; simpa using ih'
 
-theorem length_filter_lt_of_imp {α : Type} (p q : α → Bool) (l : List α) (hpq : ∀ a ∈ l, p a = true → q a = true)
+theorem cover_length_filter_lt_of_imp {α : Type} (p q : α → Bool) (l : List α) (hpq : ∀ a ∈ l, p a = true → q a = true)
     (x : α) (hx : x ∈ l) (hq : q x = true) (hp : p x = false) : (l.filter p).length < (l.filter q).length := by
   induction l with
   | nil => cases hx
@@ -130,7 +130,7 @@ theorem length_filter_lt_of_imp {α : Type} (p q : α → Bool) (l : List α) (h
     rw [List.filter_cons, List.filter_cons]
     rcases List.mem_cons.mp hx with rfl | hx'
     · rw [hp, hq]
-      have := length_filter_le_of_imp p q l hpq'
+      have := cover_length_filter_le_of_imp p q l hpq'
       simp; omega
     · have ih' := ih hpq' hx'
       have ha := hpq a List.mem_cons_self
@@ -153,7 +153,7 @@ theorem remaining_lt' (tids : List (List Int)) (covered row : List Int)
   obtain ⟨x, hxr, hxrem⟩ := hx
   unfold remaining at *
   obtain ⟨hxu, hxc⟩ := List.mem_filter.mp hxrem
-  apply length_filter_lt_of_imp _ _ _ _ x hxu hxc
+  apply cover_length_filter_lt_of_imp _ _ _ _ x hxu hxc
   · simp [hxr]
   · intro a _ ha
     simp only [Bool.not_eq_eq_eq_not, Bool.not_true, List.contains_eq_mem, List.mem_append, decide_eq_false_iff_not, not_or] at ha ⊢
@@ -365,5 +365,25 @@ theorem sparseCover_getElem {reveal : Bool} {log : List Nat} {s out : Screen} (h
     simp only [hrows, List.getElem_zipWith]; rfl
   rw [this]
   exact ⟨rfl, rfl⟩
+
+/-- B2 on the generated screen: every sample has an observed row -/
+theorem sparseCover_samples {reveal : Bool} {log : List Nat} {s out : Screen} (h : sparseCover reveal log s = .ok out)
+    (hl1 : s.tids.length = (rowsOf s).length) (hl2 : s.sids.length = (rowsOf s).length) (i : Nat) (hi : i < s.sids.length) :
+    ∃ (j : Nat) (h1 : j < (rowsOf out).length) (h2 : j < s.sids.length),
+      (rowsOf out)[j].mask = true ∧ (rowsOf out)[j].plate = initialPlateName ∧ s.sids[j] = s.sids[i] := by
+  obtain ⟨sel, hsel, hsl, hol, hget⟩ := sparseCover_getElem h hl1
+  obtain ⟨j, h1, h2, hs, he⟩ := coverSel_samples hsel (hl2.trans hl1.symm) i hi
+  have hm : ((rowsOf out)[j]'(by omega)).mask = true := by rw [(hget j (by omega) (by omega) h1).2]; exact hs
+  exact ⟨j, by omega, h2, hm, (sparseCover_plates h _ (List.getElem_mem _)).1 hm, he⟩
+
+/-- B3 on the generated screen: every treatment id occurs in an observed row -/
+theorem sparseCover_treatments {reveal : Bool} {log : List Nat} {s out : Screen} (h : sparseCover reveal log s = .ok out)
+    (hl1 : s.tids.length = (rowsOf s).length) (t : List Int) (ht : t ∈ s.tids) (x : Int) (hx : x ∈ t) :
+    ∃ (j : Nat) (h1 : j < (rowsOf out).length) (h2 : j < s.tids.length),
+      (rowsOf out)[j].mask = true ∧ (rowsOf out)[j].plate = initialPlateName ∧ x ∈ s.tids[j] := by
+  obtain ⟨sel, hsel, hsl, hol, hget⟩ := sparseCover_getElem h hl1
+  obtain ⟨j, h1, h2, hs, he⟩ := coverSel_treatments hsel t ht x hx
+  have hm : ((rowsOf out)[j]'(by omega)).mask = true := by rw [(hget j (by omega) (by omega) h1).2]; exact hs
+  exact ⟨j, by omega, h2, hm, (sparseCover_plates h _ (List.getElem_mem _)).1 hm, he⟩
 
 end Batchie.Prep
